@@ -98,6 +98,20 @@ impl Prop for C07Prop {
                 }
             }
         }
+        let maxlen = if _tier == Tier::Thorough { 6 } else { 4 };
+        for (i, p) in gen::all_strings(&[0x00, 0x1b, 0x01, 0x1a, 0x55], maxlen).into_iter().enumerate() {
+            let flen = refenc(&p).len();
+            let buf = match i % 3 {
+                0 => BufKind::Vec,
+                1 => BufKind::Arr(flen),
+                _ => BufKind::Arr(flen - 1),
+            };
+            let buf = match buf {
+                BufKind::Arr(n) if !LADDER.contains(&n) => BufKind::Vec,
+                b => b,
+            };
+            v.push(Scenario::Link(scn_for(p, buf, "directed-small-scope")));
+        }
         for n in (252..=260).chain(1020..=1028) {
             for fill in [0x55u8, 0x1b, 0x00] {
                 v.push(Scenario::Link(scn_for(vec![fill; n], BufKind::Vec, "directed-len")));
